@@ -196,6 +196,9 @@ class Tr:
             n = n.value
         if isinstance(n, ast.Name) and self.config_name is not None and n.id == self.config_name and path:
             return list(reversed(path))
+        # an alias of a config SUBTREE (`geometry = config["vial"]["geometry"]`, bound once, see Derived.block)
+        if isinstance(n, ast.Name) and n.id in getattr(self, "aliases", {}) and path:
+            return self.aliases[n.id] + list(reversed(path))
         return None
 
     @staticmethod
@@ -592,6 +595,20 @@ class Derived:
                     self.bad(st, f"{x!r} assigned twice on one path (single assignment only)")
                 lx = lean_name(x)
                 eff = []
+                if self.tr.cfg_path(v) is not None and ind == 1 and x not in getattr(self.tr, "aliases", {}):
+                    # alias of a config subtree: a Name bound ONCE (top level) to a pure config[...] path and only
+                    # subscripted afterwards (any other use is an unknown name).  Python evaluates the path here
+                    # (KeyError / TypeError); the model does so at the first lookup through the alias, which is
+                    # the same exception at the same place when the NEXT statement starts with such a lookup;
+                    # otherwise the path is checked here explicitly.
+                    if not hasattr(self.tr, "aliases"):
+                        self.tr.aliases = {}
+                    path = self.tr.cfg_path(v)
+                    if not (rest and self._first_lookup_via(rest[0], x)):
+                        out.append(pad + f"let _ ← Cfg.itemPath config {Tr.path_lit(path)}")
+                    self.tr.aliases[x] = path
+                    i += 1
+                    continue
                 if self.tr.is_stringy(v) or self.tr.cfg_path(v) is not None:
                     if self.tr.cfg_path(v) is not None:
                         self.bad(st, "a bare config[…] value may be a number, a string or a dict: wrap it in float()/str()")
@@ -691,6 +708,36 @@ class Derived:
                 i += 1
                 continue
             self.bad(st, "statement not understood")
+        return False
+
+    def _first_lookup_via(self, st, alias):
+        """does the first config lookup evaluated by statement `st` go through `alias`?"""
+        roots = []
+        if isinstance(st, ast.Assign):
+            roots = [st.value]
+        elif isinstance(st, ast.If):
+            roots = [st.test]
+        elif isinstance(st, ast.Expr):
+            roots = [st.value]
+
+        def first(n):
+            # evaluation order: children left to right, then the node
+            if isinstance(n, ast.Subscript):
+                b = n
+                while isinstance(b, ast.Subscript):
+                    b = b.value
+                if isinstance(b, ast.Name) and (b.id == alias or b.id == self.tr.config_name
+                                                or b.id in getattr(self.tr, "aliases", {})):
+                    return b.id
+            for c in ast.iter_child_nodes(n):
+                r = first(c)
+                if r is not None:
+                    return r
+            return None
+        for r in roots:
+            f = first(r)
+            if f is not None:
+                return f == alias
         return False
 
     def check_message(self, call):
@@ -864,8 +911,14 @@ class LocalDefs:
     The replacement is the translated expression of D (parenthesised as every compound expression is), so the
     float operation order is unchanged.  Applied recursively (each inlined name is checked against the same S)."""
 
-    def __init__(self, fd):
+    def __init__(self, fd, tree=None):
         self.fd = fd
+        # functions imported by name from numpy / scipy (`from scipy.integrate import simps`): numerical library
+        # functions that return new arrays and do not modify their arguments
+        self.pure_names = set()
+        for st in (tree.body if tree is not None else []):
+            if isinstance(st, ast.ImportFrom) and st.module and st.module.split(".")[0] in ("numpy", "scipy"):
+                self.pure_names |= {a.asname or a.name for a in st.names}
         self.stmts = []       # (order, node, path) for every simple statement; path = tuple of compound-node ids
         self.loops_of = {}    # id(stmt) -> tuple of enclosing loop nodes
         self.bind = {}        # name -> list of (kind, stmt)
@@ -1033,9 +1086,12 @@ class LocalDefs:
                             out.add((b, a if a is not None else "*"))
                     # arguments passed by reference may be mutated by the callee (numpy functions and the
                     # builtins below do not)
-                    pure = (isinstance(f, ast.Attribute) and isinstance(f.value, ast.Name) and f.value.id in ("np", "numpy", "math")) \
+                    pure = (isinstance(f, ast.Attribute) and isinstance(f.value, ast.Name)
+                            and f.value.id in ("np", "numpy", "math")
+                            and f.attr not in ("put", "copyto", "place", "putmask", "fill_diagonal", "put_along_axis")) \
                         or (isinstance(f, ast.Name) and f.id in ("len", "int", "float", "enumerate", "range", "print", "any",
-                                                                 "all", "sum", "min", "max", "abs", "isinstance", "str", "zip"))
+                                                                 "all", "sum", "min", "max", "abs", "isinstance", "str", "zip")) \
+                        or (isinstance(f, ast.Name) and f.id in self.pure_names and f.id not in self.bind)
                     if isinstance(f, ast.Attribute) and isinstance(f.value, ast.Name) and f.value.id in ("np", "numpy", "math"):
                         out.discard((f.value.id, "*"))
                     for arg in ([] if pure else list(n.args) + [k.value for k in n.keywords]):
@@ -1430,7 +1486,7 @@ def _keep_for(old, name):
 def _formula_defs(src, fname, func, specs, imp, tree, seen_names, old=None):
     fd = _find_func(tree, func, fname)
     assigns = _assignments(fd.body, [])
-    local = LocalDefs(fd)
+    local = LocalDefs(fd, tree)
     defs = []
     for sp in specs:
         hits = [a for a in assigns if a[0] == sp.target]
@@ -1503,7 +1559,7 @@ def translate_formulas(src: str, fname: str, func: str, specs, namespace: str, o
     imp = Imports(tree)
     fd = _find_func(tree, func, fname)
     assigns = _assignments(fd.body, [])
-    local = LocalDefs(fd)
+    local = LocalDefs(fd, tree)
     old = _old_params(old_file) if old_file else None
     defs = []
     any_pi = False
